@@ -381,6 +381,7 @@ type simFinal struct {
 }
 
 type sim struct {
+	txSeq int
 	mu      sync.Mutex
 	n, f    int
 	nodes   []*simNode
@@ -908,6 +909,24 @@ func (s *sim) deliver(mid, j int) error {
 	s.logf("deliver(%s -> n%d)", m, j)
 	s.beginEvent(j)
 	_, _ = r.OnReceive(m.pi, m.bs, network.NewPeerIDFromAddress(s.nodes[m.from].w.Address()))
+	return s.settle()
+}
+
+// submitTx puts a fresh (harmless, unique) transaction into node j's pool - also while its engine is
+// down: the pool belongs to the service, not to the consensus engine. A proposer whose pool changed builds
+// a different block than before, so a node that proposes twice for one (height, round) is seen to equivocate.
+func (s *sim) submitTx(j int) error {
+	n := s.nodes[j]
+	s.txSeq++
+	tag := fmt.Sprintf("tx-%d", s.txSeq)
+	s.logf("submitTx(n%d %s)", j, tag)
+	if n.alive {
+		s.beginEvent(j)
+	}
+	if _, err := n.tn.SM.SendTransaction(nil, 0, test.NewTx().SetVarTest(&tag).String()); err != nil {
+		s.inconcl = fmt.Sprintf("cannot submit a transaction: %v", err)
+		return fmt.Errorf(s.inconcl)
+	}
 	return s.settle()
 }
 
